@@ -4,6 +4,7 @@ package main
 
 import (
 	"fmt"
+	"strings"
 
 	"verif/harness/internal/prng"
 	"verif/harness/internal/proto"
@@ -467,6 +468,61 @@ func genPluginReload(r *prng.R, maxReqs int) []string {
 	return ops
 }
 
+// genFile: strategy_based_queue remedies declared on the global scope and on endpoints, with names drawn
+// from a small pool (duplicates inside one endpoint, across endpoints, global vs endpoint; equal or
+// different strategies), read through the real policies reader, then traffic on the declared remedies.
+func genFile(r *prng.R) []string {
+	ops := []string{fmt.Sprintf("fcfg t0=%d", int64(r.Range(1, 100000))*1_000_000_000+500_000_000)}
+	n := r.Range(1, 5)
+	pool := r.Range(n, n+2)
+	if r.Chance(45) {
+		pool = n * 4 // mostly unique names
+	}
+	q0, w0 := r.Range(1, 3), prng.Pick(r, []int{1, 2, 5})
+	for j := 0; j < n; j++ {
+		q, w := q0, w0
+		if r.Chance(40) {
+			q, w = r.Range(1, 3), prng.Pick(r, []int{1, 2, 5})
+		}
+		if r.Chance(3) {
+			q = 0 // refused for another reason
+		}
+		ops = append(ops, fmt.Sprintf("frem ep=%d name=%d quota=%d winsec=%d size=%d ttlsec=%d",
+			r.Intn(4), r.Intn(pool), q, w, r.Range(1, 3), r.Range(1, 4)))
+	}
+	ops = append(ops, "fload")
+	id := 0
+	for k := r.Range(2, 10); k > 0; k-- {
+		ops = append(ops, "ptick d=1000000", fmt.Sprintf("freq id=%d rem=%d p=%d", id, r.Intn(n), r.Intn(2)))
+		id++
+		if r.Chance(25) {
+			ops = append(ops, fmt.Sprintf("ptick d=%d", int64(r.Range(1, 3))*1_000_000_000))
+		}
+	}
+	ops = append(ops, "ptick d=8000000000")
+	return ops
+}
+
+// genReal: production clock: resolution obligation + release order of bursts whose timestamps are taken
+// back to back (quota 1 per short window).
+func genReal(r *prng.R) []string {
+	ops := []string{"rcfg", "rclock n=2000", "rclock n=20000"}
+	for b := 0; b < 2; b++ {
+		n := r.Range(4, 8)
+		ps := make([]string, n)
+		same := b == 0 || r.Chance(40)
+		for i := range ps {
+			if same {
+				ps[i] = "0"
+			} else {
+				ps[i] = fmt.Sprint(r.Intn(3))
+			}
+		}
+		ops = append(ops, fmt.Sprintf("rburst win=%d prios=%s", prng.Pick(r, []int{10, 15, 25}), strings.Join(ps, ",")))
+	}
+	return ops
+}
+
 func gen(r *prng.R, f proto.Flags, emit func(proto.Case)) {
 	n, maxReqs, maxOps := 3000, 9, 50
 	if f.Tier == "thorough" {
@@ -494,6 +550,19 @@ func gen(r *prng.R, f proto.Flags, emit func(proto.Case)) {
 	for k := 0; k < ns*f.Budget; k++ {
 		rr := r.Fork()
 		emit(proto.Case{ID: fmt.Sprintf("pr%d", k), Ops: genPluginReload(rr, rr.Range(4, 14))})
+	}
+	nreal := 3
+	if f.Tier == "thorough" {
+		nreal = 25
+	}
+	for k := 0; k < nreal*f.Budget; k++ {
+		emit(proto.Case{ID: fmt.Sprintf("rc%d", k), Ops: genReal(r.Fork())})
+	}
+	emit(proto.Case{ID: "fm0", Ops: []string{"fcfg t0=5500000000", "fload", "freq id=0 rem=0 p=0", "frem ep=1 name=1 quota=1 winsec=1 size=1 ttlsec=1",
+		"pburst k=2 rounds=2", "rclock n=5", "ptick d=5", "fload"}})
+	emit(proto.Case{ID: "fm1", Ops: []string{"rcfg", "rclock n=1", "rburst win=2 prios=0,0", "rburst win=20 prios=0,9", "preq id=0 key=0 p=0", "fload", "ptick d=5"}})
+	for k := 0; k < ns*f.Budget; k++ {
+		emit(proto.Case{ID: fmt.Sprintf("pf%d", k), Ops: genFile(r.Fork())})
 	}
 	if f.Tier == "thorough" {
 		enumerate("x", 1, 9, 3, emit)
